@@ -1,1 +1,448 @@
-//! C18 harnesses (not written yet).
+//! C18 — capacity management never changes the value; dynamic/auto never run out of room.
+//!
+//! Post-states are read from the raw storage (`into_raw()`): `(len, all storage bits, cap)`.
+//! "Bits unchanged" is checked as equality of *all* storage bits with the pre-state value,
+//! which includes "spare words are zero" (what later operations rely on).
+//!
+//! The "fresh capacity" of a length is fixed by formula (`fresh_bvd`, `fresh_bv`) and the
+//! formula itself is checked against `zeros(n)` / `ones(n)` in the `fresh` harnesses.
+//!
+//! Every (re)allocation size must be a syntactic constant for CBMC, so lengths and amounts
+//! are a concrete lattice around the 64-bit word boundaries and the inline limit (128);
+//! contents are symbolic.
+use crate::big::Big;
+use crate::nd;
+use crate::scopes::*;
+use bva::{Bit, BitVector, Bv, Bvd, Bvf};
+
+#[inline(always)]
+fn one(b: Bit) -> bool {
+    b == Bit::One
+}
+
+/// Capacity of a freshly constructed `Bvd` of `n` bits: whole 64-bit words.
+#[inline(always)]
+fn fresh_bvd(n: usize) -> usize {
+    (n + 63) / 64 * 64
+}
+
+/// Capacity of a freshly constructed `Bv` of `n` bits: inline (128) when it fits.
+#[inline(always)]
+fn fresh_bv(n: usize) -> usize {
+    if n <= 128 {
+        128
+    } else {
+        fresh_bvd(n)
+    }
+}
+
+/// Heap-mode `Bv` with four allocated words (scopes.rs stops at three).
+#[inline(always)]
+fn bvdyn4(len: usize) -> (Bv, RawV) {
+    let (b, r) = bvd4(len);
+    (Bv::Dynamic(b), r)
+}
+
+// ---- with_capacity / fresh vectors ----------------------------------------------------------
+
+macro_rules! h_with_capacity {
+    ($name:ident, $unw:literal, $T:ty, $c:literal) => {
+        harness!($name, $unw, {
+            let a = <$T>::with_capacity($c);
+            let cap = a.capacity();
+            let len = a.len();
+            w!(cap >= $c, "capacity covers the request");
+            let r = a.into_raw();
+            assert!(len == 0 && r.len == 0, "C18: with_capacity: not empty");
+            assert!(cap >= $c, "C18: with_capacity: capacity() < requested");
+            assert!(r.cap == cap, "C18: capacity() differs from the allocated storage");
+            assert!(r.v.is_zero(), "C18: with_capacity: storage not zero");
+        });
+    };
+}
+
+macro_rules! h_fresh {
+    ($name:ident, $unw:literal, $T:ty, $fresh:ident, $n:literal) => {
+        harness!($name, $unw, {
+            let z = <$T>::zeros($n);
+            let o = <$T>::ones($n);
+            w!(z.len() == $n, "constructed");
+            assert!(z.capacity() == $fresh($n), "C18: capacity of zeros(n) differs from the fresh-capacity formula");
+            assert!(o.capacity() == $fresh($n), "C18: capacity of ones(n) differs from the fresh-capacity formula");
+            let rz = z.into_raw();
+            let ro = o.into_raw();
+            assert!(rz.len == $n && rz.v.is_zero() && rz.len <= rz.cap, "C18: zeros(n) is not n zero bits within capacity");
+            assert!(ro.len == $n && ro.v == Big::mask($n) && ro.len <= ro.cap, "C18: ones(n) is not n one bits within capacity");
+        });
+    };
+}
+
+// ---- reserve ----------------------------------------------------------------------------------
+
+/// `$grow`: whether this concrete instance needs a reallocation / promotion.
+macro_rules! h_reserve_g {
+    ($name:ident, $unw:literal, $a:expr, $k:literal, $grow:literal) => {
+        harness!($name, $unw, {
+            let (mut a, ra) = $a;
+            let n = ra.len;
+            w!(n == 0 || ra.v.bit(n - 1), "empty or top bit set");
+            w!(ra.v.is_zero(), "all zeros (or empty)");
+            a.reserve($k);
+            let cap = a.capacity();
+            w!((cap > ra.cap) == $grow, "storage grew exactly when a reallocation / promotion was needed");
+            let r = a.into_raw();
+            assert!(r.len == n, "C18: reserve changed the length");
+            assert!(r.v == ra.v, "C18: reserve changed the bits (or left a spare word non-zero)");
+            assert!(cap >= n + $k, "C18: reserve: capacity < len + additional");
+            assert!(cap == r.cap, "C18: capacity() differs from the allocated storage");
+            assert!(r.len <= r.cap, "C18: len > capacity");
+        });
+    };
+}
+
+// ---- shrink_to_fit ----------------------------------------------------------------------------
+
+macro_rules! h_shrink {
+    ($name:ident, $unw:literal, $a:expr, $fresh:ident, $shrinks:literal) => {
+        harness!($name, $unw, {
+            let (mut a, ra) = $a;
+            let n = ra.len;
+            w!(n == 0 || ra.v.bit(n - 1), "empty or top bit set");
+            w!(ra.v.is_zero(), "all zeros (or empty)");
+            a.shrink_to_fit();
+            let cap = a.capacity();
+            w!((cap < ra.cap) == $shrinks, "storage shrank exactly when there was excess capacity");
+            let r = a.into_raw();
+            assert!(r.len == n, "C18: shrink_to_fit changed the length");
+            assert!(r.v == ra.v, "C18: shrink_to_fit changed the bits");
+            assert!(cap <= $fresh(n), "C18: shrink_to_fit left more capacity than a fresh vector of that length has");
+            assert!(cap == r.cap, "C18: capacity() differs from the allocated storage");
+            assert!(r.len <= r.cap, "C18: len > capacity");
+        });
+    };
+}
+
+// ---- interleavings with edits and arithmetic ----------------------------------------------------
+
+/// reserve(k) then push: the vector must behave as if reserve had not happened.
+macro_rules! h_reserve_push {
+    ($name:ident, $unw:literal, $a:expr, $k:literal) => {
+        harness!($name, $unw, {
+            let (mut a, ra) = $a;
+            let n = ra.len;
+            let b = nd::bit();
+            w!(one(b), "pushed bit is one");
+            w!(n == 0 || ra.v.bit(n - 1), "empty or top bit set");
+            a.reserve($k);
+            a.push(b);
+            let r = a.into_raw();
+            let want = if one(b) { ra.v.or(Big::ONE.shl(n)) } else { ra.v };
+            assert!(r.len == n + 1 && r.v == want, "C18: push after reserve: storage != v | b << len");
+            assert!(r.len <= r.cap, "C18: len > capacity");
+        });
+    };
+}
+
+macro_rules! h_shrink_push {
+    ($name:ident, $unw:literal, $a:expr) => {
+        harness!($name, $unw, {
+            let (mut a, ra) = $a;
+            let n = ra.len;
+            let b = nd::bit();
+            w!(one(b), "pushed bit is one");
+            w!(n == 0 || ra.v.bit(n - 1), "empty or top bit set");
+            a.shrink_to_fit();
+            a.push(b);
+            let r = a.into_raw();
+            let want = if one(b) { ra.v.or(Big::ONE.shl(n)) } else { ra.v };
+            assert!(r.len == n + 1 && r.v == want, "C18: push after shrink_to_fit: storage != v | b << len");
+            assert!(r.len <= r.cap, "C18: len > capacity");
+        });
+    };
+}
+
+/// reserve(k) then resize(m, bit).
+macro_rules! h_reserve_resize {
+    ($name:ident, $unw:literal, $a:expr, $k:literal, $m:literal) => {
+        harness!($name, $unw, {
+            let (mut a, ra) = $a;
+            let n = ra.len;
+            let b = nd::bit();
+            w!(one(b), "fill bit is one");
+            w!(n == 0 || ra.v.bit(n - 1), "empty or top bit set");
+            a.reserve($k);
+            a.resize($m, b);
+            let r = a.into_raw();
+            let want = if $m <= n {
+                ra.v.trunc($m)
+            } else if one(b) {
+                ra.v.or(Big::mask($m).and(Big::mask(n).not()))
+            } else {
+                ra.v
+            };
+            assert!(r.len == $m && r.v == want, "C18: resize after reserve: storage != truncated / filled value");
+            assert!(r.len <= r.cap, "C18: len > capacity");
+        });
+    };
+}
+
+/// reserve(k) then append(&x).
+macro_rules! h_reserve_append {
+    ($name:ident, $unw:literal, $a:expr, $k:literal, $x:expr) => {
+        harness!($name, $unw, {
+            let (mut a, ra) = $a;
+            let (x, rx) = $x;
+            let n = ra.len;
+            w!(rx.len == 0 || rx.v.bit(rx.len - 1), "operand empty or top bit set");
+            w!(n == 0 || ra.v.bit(n - 1), "empty or top bit set");
+            a.reserve($k);
+            a.append(&x);
+            let r = a.into_raw();
+            assert!(r.len == n + rx.len && r.v == ra.v.or(rx.v.shl(n)), "C18: append after reserve: storage != v | x << len");
+            assert!(r.len <= r.cap, "C18: len > capacity");
+        });
+    };
+}
+
+/// reserve(k) then `a -= &y` / `a += &y` with a possibly longer operand: the spare words
+/// created by reserve must neither be read nor written (the historical defect of this
+/// property), result = (v -/+ y) mod 2^len on the whole storage.
+macro_rules! h_reserve_arith {
+    ($name:ident, $unw:literal, $a:expr, $k:literal, $y:expr, $op:tt, $model:ident) => {
+        harness!($name, $unw, {
+            let (mut a, ra) = $a;
+            let (y, ry) = $y;
+            let n = ra.len;
+            w!(ry.len > n && !ry.v.fits(n), "operand longer than the subject with a set bit above len");
+            w!(ry.len <= n, "operand not longer than the subject");
+            w!(ra.v.trunc(n).cmp(ry.v.trunc(n)) == core::cmp::Ordering::Less, "subject < operand (borrow / no carry out of the top)");
+            a.reserve($k);
+            a $op &y;
+            let r = a.into_raw();
+            assert!(r.len == n, "C18: arithmetic after reserve changed the length");
+            assert!(r.v == ra.v.$model(ry.v).trunc(n), "C18: arithmetic after reserve: storage != (v op y) mod 2^len (spare words dirtied?)");
+            assert!(r.len <= r.cap, "C18: len > capacity");
+        });
+    };
+}
+
+/// The auto type: promote by reserve, then demote by shrink_to_fit (and the reverse order):
+/// no observable bit may change and the capacity ends at the fresh value.
+macro_rules! h_bv_round_trip {
+    ($name:ident, $unw:literal, $a:expr, $k:literal) => {
+        harness!($name, $unw, {
+            let (mut a, ra) = $a;
+            let n = ra.len;
+            w!(n == 0 || ra.v.bit(n - 1), "empty or top bit set");
+            a.reserve($k);
+            let mid_fixed = is_fixed(&a);
+            w!(!mid_fixed, "heap mode after reserve");
+            assert!(a.len() == n && a.capacity() >= n + $k, "C18: reserve: length changed or capacity < len + additional");
+            a.shrink_to_fit();
+            let end_fixed = is_fixed(&a);
+            w!(end_fixed == (n <= 128), "inline again after shrink_to_fit exactly when the length fits");
+            let cap = a.capacity();
+            let r = a.into_raw();
+            assert!(r.len == n && r.v == ra.v, "C18: reserve + shrink_to_fit changed the length or the bits");
+            assert!(cap <= fresh_bv(n) && cap == r.cap, "C18: reserve + shrink_to_fit left excess capacity");
+            assert!(r.len <= r.cap, "C18: len > capacity");
+        });
+    };
+}
+
+// =============================================================================================
+// with_capacity and the fresh-capacity formula
+// =============================================================================================
+h_with_capacity!(c18_q_withcap_bvd_c0, 4, Bvd, 0);
+h_with_capacity!(c18_q_withcap_bvd_c1, 4, Bvd, 1);
+h_with_capacity!(c18_q_withcap_bvd_c64, 4, Bvd, 64);
+h_with_capacity!(c18_q_withcap_bvd_c65, 5, Bvd, 65);
+h_with_capacity!(c18_q_withcap_bvd_c128, 5, Bvd, 128);
+h_with_capacity!(c18_q_withcap_bvd_c129, 6, Bvd, 129);
+h_with_capacity!(c18_q_withcap_bvd_c192, 6, Bvd, 192);
+h_with_capacity!(c18_t_withcap_bvd_c193, 7, Bvd, 193);
+h_with_capacity!(c18_t_withcap_bvd_c256, 7, Bvd, 256);
+h_with_capacity!(c18_q_withcap_bv_c0, 4, Bv, 0);
+h_with_capacity!(c18_q_withcap_bv_c1, 4, Bv, 1);
+h_with_capacity!(c18_q_withcap_bv_c64, 4, Bv, 64);
+h_with_capacity!(c18_q_withcap_bv_c128, 4, Bv, 128);
+h_with_capacity!(c18_q_withcap_bv_c129, 6, Bv, 129);
+h_with_capacity!(c18_q_withcap_bv_c192, 6, Bv, 192);
+h_with_capacity!(c18_t_withcap_bv_c65, 4, Bv, 65);
+h_with_capacity!(c18_t_withcap_bv_c256, 7, Bv, 256);
+
+h_fresh!(c18_q_fresh_bvd_n0, 4, Bvd, fresh_bvd, 0);
+h_fresh!(c18_q_fresh_bvd_n1, 4, Bvd, fresh_bvd, 1);
+h_fresh!(c18_q_fresh_bvd_n64, 4, Bvd, fresh_bvd, 64);
+h_fresh!(c18_q_fresh_bvd_n65, 5, Bvd, fresh_bvd, 65);
+h_fresh!(c18_q_fresh_bvd_n128, 5, Bvd, fresh_bvd, 128);
+h_fresh!(c18_q_fresh_bvd_n129, 6, Bvd, fresh_bvd, 129);
+h_fresh!(c18_q_fresh_bvd_n192, 6, Bvd, fresh_bvd, 192);
+h_fresh!(c18_t_fresh_bvd_n63, 4, Bvd, fresh_bvd, 63);
+h_fresh!(c18_t_fresh_bvd_n127, 5, Bvd, fresh_bvd, 127);
+h_fresh!(c18_t_fresh_bvd_n193, 7, Bvd, fresh_bvd, 193);
+h_fresh!(c18_q_fresh_bv_n0, 5, Bv, fresh_bv, 0);
+h_fresh!(c18_q_fresh_bv_n1, 5, Bv, fresh_bv, 1);
+h_fresh!(c18_q_fresh_bv_n128, 5, Bv, fresh_bv, 128);
+h_fresh!(c18_q_fresh_bv_n129, 6, Bv, fresh_bv, 129);
+h_fresh!(c18_q_fresh_bv_n192, 6, Bv, fresh_bv, 192);
+h_fresh!(c18_t_fresh_bv_n64, 5, Bv, fresh_bv, 64);
+h_fresh!(c18_t_fresh_bv_n127, 5, Bv, fresh_bv, 127);
+h_fresh!(c18_t_fresh_bv_n193, 7, Bv, fresh_bv, 193);
+
+// ==== generated instantiations ================================================================
+// reserve: (allocated words, len) x additional
+h_reserve_g!(c18_q_reserve_bvd0n0_k0, 7, bvd0(0), 0, false);
+h_reserve_g!(c18_q_reserve_bvd0n0_k1, 7, bvd0(0), 1, true);
+h_reserve_g!(c18_q_reserve_bvd0n0_k65, 7, bvd0(0), 65, true);
+h_reserve_g!(c18_q_reserve_bvd1n0_k64, 7, bvd1(0), 64, false);
+h_reserve_g!(c18_q_reserve_bvd1n0_k65, 7, bvd1(0), 65, true);
+h_reserve_g!(c18_q_reserve_bvd1n1_k63, 7, bvd1(1), 63, false);
+h_reserve_g!(c18_q_reserve_bvd1n1_k64, 7, bvd1(1), 64, true);
+h_reserve_g!(c18_q_reserve_bvd1n63_k1, 7, bvd1(63), 1, false);
+h_reserve_g!(c18_q_reserve_bvd1n63_k2, 7, bvd1(63), 2, true);
+h_reserve_g!(c18_q_reserve_bvd1n64_k0, 7, bvd1(64), 0, false);
+h_reserve_g!(c18_q_reserve_bvd1n64_k1, 7, bvd1(64), 1, true);
+h_reserve_g!(c18_q_reserve_bvd1n64_k64, 7, bvd1(64), 64, true);
+h_reserve_g!(c18_q_reserve_bvd1n64_k65, 7, bvd1(64), 65, true);
+h_reserve_g!(c18_q_reserve_bvd1n64_k192, 7, bvd1(64), 192, true);
+h_reserve_g!(c18_q_reserve_bvd2n64_k64, 7, bvd2(64), 64, false);
+h_reserve_g!(c18_q_reserve_bvd2n64_k65, 7, bvd2(64), 65, true);
+h_reserve_g!(c18_q_reserve_bvd2n65_k63, 7, bvd2(65), 63, false);
+h_reserve_g!(c18_q_reserve_bvd2n128_k1, 7, bvd2(128), 1, true);
+h_reserve_g!(c18_q_reserve_bvd2n128_k128, 7, bvd2(128), 128, true);
+h_reserve_g!(c18_q_reserve_bvd2n10_k0, 7, bvd2(10), 0, false);
+h_reserve_g!(c18_q_reserve_bvd3n10_k182, 7, bvd3(10), 182, false);
+h_reserve_g!(c18_q_reserve_bvd3n10_k183, 7, bvd3(10), 183, true);
+h_reserve_g!(c18_q_reserve_bvd3n192_k0, 7, bvd3(192), 0, false);
+h_reserve_g!(c18_q_reserve_bvd3n192_k1, 7, bvd3(192), 1, true);
+h_reserve_g!(c18_q_reserve_bvd3n192_k64, 7, bvd3(192), 64, true);
+h_reserve_g!(c18_t_reserve_bvd1n5_k59, 7, bvd1(5), 59, false);
+h_reserve_g!(c18_t_reserve_bvd1n5_k60, 7, bvd1(5), 60, true);
+h_reserve_g!(c18_t_reserve_bvd1n5_k123, 7, bvd1(5), 123, true);
+h_reserve_g!(c18_t_reserve_bvd1n5_k124, 7, bvd1(5), 124, true);
+h_reserve_g!(c18_t_reserve_bvd1n5_k251, 7, bvd1(5), 251, true);
+h_reserve_g!(c18_t_reserve_bvd2n127_k1, 7, bvd2(127), 1, false);
+h_reserve_g!(c18_t_reserve_bvd2n127_k2, 7, bvd2(127), 2, true);
+h_reserve_g!(c18_t_reserve_bvd2n100_k92, 7, bvd2(100), 92, true);
+h_reserve_g!(c18_t_reserve_bvd2n100_k93, 7, bvd2(100), 93, true);
+h_reserve_g!(c18_t_reserve_bvd4n200_k56, 7, bvd4(200), 56, false);
+h_reserve_g!(c18_t_reserve_bvd4n256_k0, 7, bvd4(256), 0, false);
+// reserve on the auto type: inline (promotion exactly when len + additional > 128) and heap mode
+h_reserve_g!(c18_q_reserve_bvfixn0_k0, 7, bvfix(0), 0, false);
+h_reserve_g!(c18_q_reserve_bvfixn0_k128, 7, bvfix(0), 128, false);
+h_reserve_g!(c18_q_reserve_bvfixn0_k129, 7, bvfix(0), 129, true);
+h_reserve_g!(c18_q_reserve_bvfixn100_k28, 7, bvfix(100), 28, false);
+h_reserve_g!(c18_q_reserve_bvfixn100_k29, 7, bvfix(100), 29, true);
+h_reserve_g!(c18_q_reserve_bvfixn128_k0, 7, bvfix(128), 0, false);
+h_reserve_g!(c18_q_reserve_bvfixn128_k1, 7, bvfix(128), 1, true);
+h_reserve_g!(c18_q_reserve_bvfixn128_k64, 7, bvfix(128), 64, true);
+h_reserve_g!(c18_q_reserve_bvfixn64_k192, 7, bvfix(64), 192, true);
+h_reserve_g!(c18_t_reserve_bvfixn1_k127, 7, bvfix(1), 127, false);
+h_reserve_g!(c18_t_reserve_bvfixn1_k128, 7, bvfix(1), 128, true);
+h_reserve_g!(c18_t_reserve_bvfixn127_k1, 7, bvfix(127), 1, false);
+h_reserve_g!(c18_t_reserve_bvfixn127_k2, 7, bvfix(127), 2, true);
+h_reserve_g!(c18_t_reserve_bvfixn5_k251, 7, bvfix(5), 251, true);
+h_reserve_g!(c18_q_reserve_bvdyn2n100_k28, 7, bvdyn2(100), 28, false);
+h_reserve_g!(c18_q_reserve_bvdyn2n100_k29, 7, bvdyn2(100), 29, true);
+h_reserve_g!(c18_q_reserve_bvdyn2n128_k64, 7, bvdyn2(128), 64, true);
+h_reserve_g!(c18_q_reserve_bvdyn3n129_k0, 7, bvdyn3(129), 0, false);
+h_reserve_g!(c18_q_reserve_bvdyn1n10_k200, 7, bvdyn1(10), 200, true);
+h_reserve_g!(c18_t_reserve_bvdyn3n192_k1, 7, bvdyn3(192), 1, true);
+h_reserve_g!(c18_t_reserve_bvdyn2n5_k123, 7, bvdyn2(5), 123, false);
+h_reserve_g!(c18_t_reserve_bvdyn2n5_k124, 7, bvdyn2(5), 124, true);
+
+// shrink_to_fit
+h_shrink!(c18_q_shrink_bvd3n0, 7, bvd3(0), fresh_bvd, true);
+h_shrink!(c18_q_shrink_bvd3n1, 7, bvd3(1), fresh_bvd, true);
+h_shrink!(c18_q_shrink_bvd3n64, 7, bvd3(64), fresh_bvd, true);
+h_shrink!(c18_q_shrink_bvd3n65, 7, bvd3(65), fresh_bvd, true);
+h_shrink!(c18_q_shrink_bvd3n128, 7, bvd3(128), fresh_bvd, true);
+h_shrink!(c18_q_shrink_bvd3n129, 7, bvd3(129), fresh_bvd, false);
+h_shrink!(c18_q_shrink_bvd3n192, 7, bvd3(192), fresh_bvd, false);
+h_shrink!(c18_q_shrink_bvd1n0, 7, bvd1(0), fresh_bvd, true);
+h_shrink!(c18_q_shrink_bvd1n64, 7, bvd1(64), fresh_bvd, false);
+h_shrink!(c18_q_shrink_bvd2n64, 7, bvd2(64), fresh_bvd, true);
+h_shrink!(c18_q_shrink_bvd4n130, 7, bvd4(130), fresh_bvd, true);
+h_shrink!(c18_q_shrink_bvd0n0, 7, bvd0(0), fresh_bvd, false);
+h_shrink!(c18_t_shrink_bvd4n0, 7, bvd4(0), fresh_bvd, true);
+h_shrink!(c18_t_shrink_bvd4n192, 7, bvd4(192), fresh_bvd, true);
+h_shrink!(c18_t_shrink_bvd4n193, 7, bvd4(193), fresh_bvd, false);
+h_shrink!(c18_t_shrink_bvd2n1, 7, bvd2(1), fresh_bvd, true);
+h_shrink!(c18_t_shrink_bvd2n65, 7, bvd2(65), fresh_bvd, false);
+h_shrink!(c18_t_shrink_bvd3n127, 7, bvd3(127), fresh_bvd, true);
+h_shrink!(c18_q_shrink_bvdyn3n0, 7, bvdyn3(0), fresh_bv, true);
+h_shrink!(c18_q_shrink_bvdyn3n1, 7, bvdyn3(1), fresh_bv, true);
+h_shrink!(c18_q_shrink_bvdyn3n128, 7, bvdyn3(128), fresh_bv, true);
+h_shrink!(c18_q_shrink_bvdyn3n129, 7, bvdyn3(129), fresh_bv, false);
+h_shrink!(c18_q_shrink_bvdyn3n192, 7, bvdyn3(192), fresh_bv, false);
+h_shrink!(c18_q_shrink_bvdyn2n100, 7, bvdyn2(100), fresh_bv, false);
+h_shrink!(c18_q_shrink_bvdyn1n10, 7, bvdyn1(10), fresh_bv, false);
+h_shrink!(c18_q_shrink_bvdyn4n130, 7, bvdyn4(130), fresh_bv, true);
+h_shrink!(c18_q_shrink_bvdyn4n128, 7, bvdyn4(128), fresh_bv, true);
+h_shrink!(c18_t_shrink_bvdyn4n193, 7, bvdyn4(193), fresh_bv, false);
+h_shrink!(c18_t_shrink_bvdyn4n129, 7, bvdyn4(129), fresh_bv, true);
+h_shrink!(c18_t_shrink_bvdyn2n128, 7, bvdyn2(128), fresh_bv, false);
+h_shrink!(c18_t_shrink_bvdyn3n64, 7, bvdyn3(64), fresh_bv, true);
+h_shrink!(c18_q_shrink_bvfixn0, 7, bvfix(0), fresh_bv, false);
+h_shrink!(c18_q_shrink_bvfixn100, 7, bvfix(100), fresh_bv, false);
+h_shrink!(c18_q_shrink_bvfixn128, 7, bvfix(128), fresh_bv, false);
+
+// interleavings: reserve / shrink_to_fit followed by an edit or by arithmetic
+h_reserve_push!(c18_q_reserve_push_bvd1n64_k1, 7, bvd1(64), 1);
+h_reserve_push!(c18_q_reserve_push_bvd1n64_k100, 7, bvd1(64), 100);
+h_reserve_push!(c18_q_reserve_push_bvd1n10_k200, 7, bvd1(10), 200);
+h_reserve_push!(c18_q_reserve_push_bvd2n128_k0, 7, bvd2(128), 0);
+h_reserve_push!(c18_q_reserve_push_bvd0n0_k64, 7, bvd0(0), 64);
+h_reserve_push!(c18_q_reserve_push_bvfixn128_k1, 7, bvfix(128), 1);
+h_reserve_push!(c18_q_reserve_push_bvfixn100_k100, 7, bvfix(100), 100);
+h_reserve_push!(c18_q_reserve_push_bvfixn127_k1, 7, bvfix(127), 1);
+h_reserve_push!(c18_t_reserve_push_bvd3n192_k1, 7, bvd3(192), 1);
+h_reserve_push!(c18_t_reserve_push_bvd2n127_k70, 7, bvd2(127), 70);
+h_reserve_push!(c18_t_reserve_push_bvfixn0_k129, 7, bvfix(0), 129);
+h_shrink_push!(c18_q_shrink_push_bvd3n64, 7, bvd3(64));
+h_shrink_push!(c18_q_shrink_push_bvd3n10, 7, bvd3(10));
+h_shrink_push!(c18_q_shrink_push_bvd3n128, 7, bvd3(128));
+h_shrink_push!(c18_q_shrink_push_bvd2n0, 7, bvd2(0));
+h_shrink_push!(c18_q_shrink_push_bvd4n192, 7, bvd4(192));
+h_shrink_push!(c18_q_shrink_push_bvdyn3n100, 7, bvdyn3(100));
+h_shrink_push!(c18_q_shrink_push_bvdyn3n128, 7, bvdyn3(128));
+h_shrink_push!(c18_t_shrink_push_bvd4n64, 7, bvd4(64));
+h_shrink_push!(c18_t_shrink_push_bvdyn4n127, 7, bvdyn4(127));
+h_reserve_resize!(c18_q_reserve_resize_bvd1n60_k100_m130, 8, bvd1(60), 100, 130);
+h_reserve_resize!(c18_q_reserve_resize_bvd1n64_k64_m65, 8, bvd1(64), 64, 65);
+h_reserve_resize!(c18_q_reserve_resize_bvd1n64_k200_m10, 8, bvd1(64), 200, 10);
+h_reserve_resize!(c18_q_reserve_resize_bvd2n100_k1_m192, 8, bvd2(100), 1, 192);
+h_reserve_resize!(c18_q_reserve_resize_bvfixn100_k100_m130, 8, bvfix(100), 100, 130);
+h_reserve_resize!(c18_q_reserve_resize_bvfixn128_k1_m100, 8, bvfix(128), 1, 100);
+h_reserve_resize!(c18_t_reserve_resize_bvd1n0_k1_m192, 8, bvd1(0), 1, 192);
+h_reserve_resize!(c18_t_reserve_resize_bvd3n192_k64_m0, 8, bvd3(192), 64, 0);
+h_reserve_resize!(c18_t_reserve_resize_bvfixn10_k200_m129, 8, bvfix(10), 200, 129);
+h_reserve_append!(c18_q_reserve_append_bvd1n60_k100_f8x2n10, 12, bvd1(60), 100, f8x2(10));
+h_reserve_append!(c18_q_reserve_append_bvd1n64_k1_f64x2n128, 12, bvd1(64), 1, f64x2(128));
+h_reserve_append!(c18_q_reserve_append_bvd2n100_k200_bvd1n64, 12, bvd2(100), 200, bvd1(64));
+h_reserve_append!(c18_q_reserve_append_bvfixn100_k100_f8x2n16, 12, bvfix(100), 100, f8x2(16));
+h_reserve_append!(c18_t_reserve_append_bvd1n1_k64_bvfixn127, 12, bvd1(1), 64, bvfix(127));
+h_reserve_append!(c18_t_reserve_append_bvfixn128_k64_f64x1n64, 12, bvfix(128), 64, f64x1(64));
+h_reserve_arith!(c18_q_reserve_sub_bvd1n40_k200_f64x3, 6, bvd1(40), 200, f64x3(anylen(192)), -=, sub);
+h_reserve_arith!(c18_q_reserve_sub_bvd1n64_k65_f64x3, 6, bvd1(64), 65, f64x3(anylen(192)), -=, sub);
+h_reserve_arith!(c18_q_reserve_add_bvd1n40_k200_f64x3, 6, bvd1(40), 200, f64x3(anylen(192)), +=, add);
+h_reserve_arith!(c18_q_reserve_sub_bvd2n100_k100_f8x3, 10, bvd2(100), 100, f8x3(anylen(24)), -=, sub);
+h_reserve_arith!(c18_q_reserve_sub_bvd1n40_k200_bvd3, 6, bvd1(40), 200, bvd3(anylen(192)), -=, sub);
+h_reserve_arith!(c18_q_reserve_sub_bvdyn1n40_k200_f64x3, 6, bvdyn1(40), 200, f64x3(anylen(192)), -=, sub);
+h_reserve_arith!(c18_q_reserve_sub_bvfixn100_k100_f64x3, 6, bvfix(100), 100, f64x3(anylen(192)), -=, sub);
+h_reserve_arith!(c18_t_reserve_add_bvd2n128_k1_f64x3, 6, bvd2(128), 1, f64x3(anylen(192)), +=, add);
+h_reserve_arith!(c18_t_reserve_sub_bvd1n1_k64_f64x2, 6, bvd1(1), 64, f64x2(anylen(128)), -=, sub);
+h_reserve_arith!(c18_t_reserve_add_bvd1n40_k200_bvdyn3, 6, bvd1(40), 200, bvdyn3(anylen(192)), +=, add);
+h_reserve_arith!(c18_t_reserve_sub_bvd2n65_k192_f16x2, 8, bvd2(65), 192, f16x2(anylen(32)), -=, sub);
+
+// the auto type: inline -> heap (reserve) -> inline (shrink_to_fit), and heap vectors that stay heap
+h_bv_round_trip!(c18_q_roundtrip_bvfixn0_k129, 7, bvfix(0), 129);
+h_bv_round_trip!(c18_q_roundtrip_bvfixn100_k29, 7, bvfix(100), 29);
+h_bv_round_trip!(c18_q_roundtrip_bvfixn128_k1, 7, bvfix(128), 1);
+h_bv_round_trip!(c18_q_roundtrip_bvfixn128_k128, 7, bvfix(128), 128);
+h_bv_round_trip!(c18_q_roundtrip_bvdyn3n129_k0, 7, bvdyn3(129), 0);
+h_bv_round_trip!(c18_q_roundtrip_bvdyn3n130_k62, 7, bvdyn3(130), 62);
+h_bv_round_trip!(c18_t_roundtrip_bvfixn64_k65, 7, bvfix(64), 65);
+h_bv_round_trip!(c18_t_roundtrip_bvfixn1_k200, 7, bvfix(1), 200);
+h_bv_round_trip!(c18_t_roundtrip_bvdyn2n100_k100, 7, bvdyn2(100), 100);
